@@ -361,6 +361,14 @@ func (c c17C_bw6_633) pedBatch(a kvs) string {
 		} else {
 			poks[i].Add(&poks[i], &t)
 		}
+	case "Ccancel":
+		j := (i + 1) % k
+		cs[i].Add(&cs[i], &mG)
+		cs[j].Sub(&cs[j], &mG)
+	case "Pcancel":
+		j := (i + 1) % len(poks)
+		poks[i].Add(&poks[i], &mG)
+		poks[j].Sub(&poks[j], &mG)
 	case "Pcomp":
 		mr := new(big.Int).Mul(m, a.big("r"))
 		d0 := c.g1(mr)
